@@ -492,3 +492,94 @@ func ruleRel3(c *Ctx) {
 			"the recursive call is not guarded by an exit taken when the last iteration produced no rows")
 	}
 }
+
+func init() {
+	Register(&Rule{ID: "R-REL-6", Props: []string{"C03"}, Floor: 1,
+		Doc: "FULL outer join always visits the non-preserved side: in OuterJoin every return that can report success lies behind a test of `direction == FULL` (whose true arm pads the unmatched rows of the other input with NULLs) — a shortcut return taken before that test drops those rows",
+		Run: ruleRel6})
+}
+
+// errorExit: the block is dominated by the true edge of `err != nil` (error
+// typed) or of a HasError() call — an exit that reports a failure.
+func errorExit(c *Ctx, b *ssa.BasicBlock) bool {
+	for _, f := range core.FactsAt(b) {
+		if v, neq, ok := core.NilCmp(f.Cond); ok && core.IsErrorType(v.Type()) && neq != f.Neg {
+			return true
+		}
+		if call, ok := f.Cond.(*ssa.Call); ok && !f.Neg {
+			n := c.P.CalleeName(call)
+			if strings.HasSuffix(n, ".HasError") {
+				return true
+			}
+		}
+	}
+	return false
+}
+
+func ruleRel6(c *Ctx) {
+	fn := c.Fn("lib/query.OuterJoin")
+	if fn == nil {
+		return
+	}
+	full, ok := parserConst(c, "FULL")
+	if !ok {
+		c.Unknown("parser.FULL", "-", "cannot-analyse: token constant not found")
+		return
+	}
+	isFullTest := func(in ssa.Instruction) bool {
+		iff, ok := in.(*ssa.If)
+		if !ok {
+			return false
+		}
+		bo, ok := iff.Cond.(*ssa.BinOp)
+		if !ok || bo.Op != token.EQL {
+			return false
+		}
+		for _, pair := range [][2]ssa.Value{{bo.X, bo.Y}, {bo.Y, bo.X}} {
+			if k, ok := core.ConstInt(pair[1]); ok && k == full && strings.Contains(valuePathLabel(pair[0]), "direction") {
+				return true
+			}
+		}
+		return false
+	}
+	found := false
+	for _, b := range fn.Blocks {
+		if isFullTest(b.Instrs[len(b.Instrs)-1]) {
+			found = true
+		}
+	}
+	key := c.KeyAt(fn, "success returns lie behind the FULL test")
+	if !found {
+		c.Bad(key, c.FnPos(fn), "OuterJoin no longer tests direction == FULL: the unmatched rows of the right input cannot be padded")
+		return
+	}
+	// returns reachable without crossing a FULL test
+	errIdx := core.ErrorResultIndex(fn)
+	bad := ""
+	seen := map[*ssa.BasicBlock]bool{}
+	var walk func(b *ssa.BasicBlock)
+	walk = func(b *ssa.BasicBlock) {
+		if seen[b] {
+			return
+		}
+		seen[b] = true
+		last := b.Instrs[len(b.Instrs)-1]
+		if isFullTest(last) {
+			return
+		}
+		if r, ok := last.(*ssa.Return); ok && errIdx >= 0 {
+			if !errorExit(c, b) {
+				for _, v := range core.ReturnOperand(r, errIdx) {
+					if core.ClassifyNil(v, r) != core.NonNil {
+						bad = fmt.Sprintf("the return at %s can report success without ever testing direction == FULL", c.Pos(r))
+					}
+				}
+			}
+		}
+		for _, s := range b.Succs {
+			walk(s)
+		}
+	}
+	walk(fn.Blocks[0])
+	c.Check(bad == "", key, c.FnPos(fn), "every success return is reached through the FULL test", bad+": for a FULL join the rows of the other input that found no partner are not emitted")
+}
